@@ -353,4 +353,116 @@ def stepSample (scn : String) (s : Step) : Sample :=
 def grpcStepSample (scn : String) (s : GrpcStep) : Sample :=
   { tags := stepTag scn s.tag, id := 0, proto := grpcStepProto s.outcome, net := 0 }
 
+
+/-! ## the sample at setter level, and netsample's sample pool
+
+The guns never build a sample value: they `Acquire` one from a process-wide pool (`sync.Pool`; the phout aggregator puts
+every sample back after writing its line) and call setters on it. What a RECYCLED sample carried must not show. -/
+
+/-- the setter calls of the guns -/
+inductive SampleOp where
+  /-- `AddTag(t)` -/
+  | addTag (t : String)
+  /-- `if sample.Tags() == "" { sample.AddTag(t) }` -/
+  | addTagIfEmpty (t : String)
+  /-- `SetID(n)` -/
+  | setID (n : Nat)
+  /-- `SetProtoCode(c)` -/
+  | setProto (c : Nat)
+  /-- `SetErr(e)`: stores `getErrno(e)` as the net code -/
+  | setErr (e : Err)
+  deriving Repr, DecidableEq, Inhabited
+
+def applyOp (s : Sample) : SampleOp → Sample
+  | .addTag t => { s with tags := addTag s.tags t }
+  | .addTagIfEmpty t => if s.tags = "" then { s with tags := addTag s.tags t } else s
+  | .setID n => { s with id := n }
+  | .setProto c => { s with proto := c }
+  | .setErr e => { s with net := getErrno e }
+
+def applyOps (s : Sample) (ops : List SampleOp) : Sample := ops.foldl applyOp s
+
+/-- a sample nobody has touched: `Sample{timeStamp: now, tags: tag}` -/
+def fresh (tag : String) : Sample := { tags := tag, id := 0, proto := 0, net := 0 }
+
+/-- `netsample.Acquire(tag)`: `s := samplePool.Get(); *s = Sample{timeStamp: time.Now(), tags: tag}` — whatever the
+recycled sample carried (`some stale`) is overwritten as a whole. -/
+def acquire (_recycled : Option Sample) (tag : String) : Sample := fresh tag
+
+/-- an `Acquire` that only sets the tag of a recycled sample (the defect the whole-struct assignment excludes) -/
+def acquireKeeping (recycled : Option Sample) (tag : String) : Sample :=
+  match recycled with
+  | some s => { s with tags := tag }
+  | none => fresh tag
+
+/-- the auto-tag / `__EMPTY__` block of `Shoot` as setter calls -/
+def tagOps (cfg : AutoTagCfg) (ammoTag path : String) : List SampleOp :=
+  (if cfg.enabled && (!cfg.noTagOnly || ammoTag = "") then [SampleOp.addTag (autotag cfg.uriElements path)] else []) ++
+    [.addTagIfEmpty emptyTag]
+
+/-- what `Shoot` does to the sample once the exchange is over -/
+def outcomeOps : HttpOutcome → List SampleOp
+  | .doErr e => [.setErr e]
+  | .response st none => [.setProto st]
+  | .response st (some e) => [.setProto st, .setErr e]
+  | .doPanic => []
+
+/-- setter calls of `GunAmmo.Request` + `BaseGun.Shoot` for one shot, in program order -/
+def httpOps (cfg : AutoTagCfg) (s : HttpShot) : List SampleOp :=
+  .setID s.id ::
+    (if s.invalid then [.addTag emptyTag, .setProto 0]
+     else tagOps cfg s.ammoTag s.path ++ outcomeOps s.outcome)
+
+/-- A run against an aggregator that RELEASES samples: each request acquires a sample — `choose` (any policy: `sync.Pool`
+promises none) says which pooled one is recycled, if any — applies its setter calls, reports it (its line is written
+as it is then) and the sample goes back to the pool carrying what it carried. `acq` is the `Acquire` under study. -/
+def runRecycling (acq : Option Sample → String → Sample) (choose : List Sample → Option Nat) :
+    List Sample → List (String × List SampleOp) → List Sample
+  | _, [] => []
+  | pool, (tag, ops) :: rest =>
+    let recycled := (choose pool).bind (pool[·]?)
+    let pool' := match choose pool with
+      | some i => pool.eraseIdx i
+      | none => pool
+    let s := applyOps (acq recycled tag) ops
+    s :: runRecycling acq choose (s :: pool') rest
+
+/-! ## a gRPC target that goes away in the middle of a run -/
+
+/-- what a request meets once the target is gone: a call that is made fails on the client side with status Unavailable
+(14); a request that is never sent (unknown method, bad payload) does not notice -/
+def afterGone : GrpcOutcome → GrpcOutcome
+  | .invoked _ => .invoked 14
+  | o => o
+
+def isInvoked : GrpcOutcome → Bool
+  | .invoked _ => true
+  | _ => false
+
+/-- A run of the plain gRPC gun. Each request: tag, outcome against a healthy target, and whether the target goes away
+while this call is in flight (`kill`; only a call that is made can be in flight). -/
+def runGrpcGone : Bool → List (String × GrpcOutcome × Bool) → List Sample
+  | _, [] => []
+  | gone, (tag, o, kill) :: rest =>
+    let gone' := gone || (kill && isInvoked o)
+    (shootGrpc tag (if gone' then afterGone o else o)).reports ++ runGrpcGone gone' rest
+
+/-- the outcomes the requests of such a run meet, one by one -/
+def effectiveOutcomes : Bool → List (String × GrpcOutcome × Bool) → List (String × GrpcOutcome)
+  | _, [] => []
+  | gone, (tag, o, kill) :: rest =>
+    let gone' := gone || (kill && isInvoked o)
+    (tag, if gone' then afterGone o else o) :: effectiveOutcomes gone' rest
+
+/-! ## what the harness knows about a request (ground truth handed to the Spec) -/
+
+/-- gRPC: the status code of the call, when the call was made -/
+def grpcTruth : GrpcOutcome → Option Nat
+  | .invoked c => some c
+  | _ => none
+
+/-- gRPC scenario step: its tag `scenario.tag` and the status code of the call, when it was made -/
+def grpcStepTruth (scn : String) (s : GrpcStep) : String × Option Nat :=
+  (scn ++ "." ++ s.tag, match s.outcome with | .invoked c _ => some c | _ => none)
+
 end Pandora.Model.C10
